@@ -9,6 +9,7 @@ Nothing here mutates its arguments.
 """
 
 import datetime
+import fractions
 import functools
 import math
 import zoneinfo
@@ -166,13 +167,68 @@ def aggregate_value(func, values):
     raise ValueError(func)
 
 
-def ref_aggregate(rows, categories, measures):
+def aggregate_value_exact(func, values):
+    """Like aggregate_value, for numerically delicate measure values: the result is computed exactly with fractions
+    (two-pass population deviation, then one correctly rounded square root) and every acceptable result comes with an
+    absolute tolerance that any sound floating-point evaluation meets - a plain left-to-right sum (error below
+    n * eps * sum|x|) and a two-pass deviation (error below a few eps * max|x|) - namely
+        sum: 1e-13 * sum|x|        average: 1e-13 * sum|x| / n        stddev: 1e-12 * value + 1e-13 * max|x|
+    (eps = 1.1e-16). A one-pass sqrt(E[x^2] - E[x]^2) misses the stddev tolerance by orders of magnitude on
+    large-offset data. Returns a tuple of (value, tolerance) pairs or UNSPECIFIED."""
+    vals = [v for v in values if v is not None]
+    if not vals:
+        return UNSPECIFIED
+    if func == 'count':
+        return ((len(vals), 0),)
+    if not all(rv.is_number(v) for v in vals):
+        return UNSPECIFIED
+    n = len(vals)
+    exact = [fractions.Fraction(v) for v in vals]
+    total = sum(exact, fractions.Fraction(0))
+    sum_abs = float(sum((abs(x) for x in exact), fractions.Fraction(0)))
+    max_abs = float(max(abs(x) for x in exact))
+    if func == 'sum':
+        return ((float(total), 1e-13 * sum_abs),)
+    if func == 'min':
+        return ((min(vals), 0),)
+    if func == 'max':
+        return ((max(vals), 0),)
+    mean = total / n
+    if func == 'average':
+        return ((float(mean), 1e-13 * sum_abs / n),)
+    if func == 'stddev':
+        squares = sum(((x - mean) ** 2 for x in exact), fractions.Fraction(0))
+        population = math.sqrt(float(squares / n))
+        out = [(population, 1e-12 * population + 1e-13 * max_abs)]
+        if n > 1:
+            sample = math.sqrt(float(squares / (n - 1)))
+            out.append((sample, 1e-12 * sample + 1e-13 * max_abs))
+        else:
+            out.append((None, 0))
+        return tuple(out)
+    raise ValueError(func)
+
+
+def value_within(got, accepted):
+    """accepted: a plain value (null or a number, relative tolerance 1e-12) or a (value, absolute tolerance) pair."""
+    if isinstance(accepted, tuple):
+        value, tol = accepted
+        if value is None:
+            return got is None
+        return rv.is_number(got) and abs(got - value) <= tol
+    if accepted is None:
+        return got is None
+    return number_close(got, accepted)
+
+
+def ref_aggregate(rows, categories, measures, exact=False):
     """measures: list of (field, function, output name). Returns category key -> (category values, {output name:
     acceptable results | UNSPECIFIED}); one entry per distinct category (the partition)."""
     out = {}
     for key, members in ref_groups(rows, categories).items():
         cats = {} if categories is None else {c: members[0].get(c) for c in categories}
-        out[key] = (cats, {name: aggregate_value(func, [m.get(field) for m in members]) for field, func, name in measures})
+        value = aggregate_value_exact if exact else aggregate_value
+        out[key] = (cats, {name: value(func, [m.get(field) for m in members]) for field, func, name in measures})
     return out
 
 
